@@ -345,8 +345,14 @@ def r26_6(ctx):
             # leaving through the ImportError handler or the "already ours" branch is sanctioned
             if lbl == "exc":
                 return True
-            if isinstance(a, ast.If) and lbl is False and "DaskArrayExprManager" in idents_in(a.test) and "isinstance" in idents_in(a.test):
-                return True
+            if isinstance(a, ast.If) and "DaskArrayExprManager" in idents_in(a.test) and "isinstance" in idents_in(a.test):
+                # the branch on which the slot already holds our manager: `if not isinstance(...)`: False edge;
+                # `if isinstance(...): return`: True edge
+                t, pol = a.test, True
+                while isinstance(t, ast.UnaryOp) and isinstance(t.op, ast.Not):
+                    t, pol = t.operand, not pol
+                if isinstance(t, ast.Call) and dotted(t.func) == "isinstance" and lbl is pol:
+                    return True
             return False
         p = cfg2.path_avoiding(cfg2.exit, blocked=is_store_or_ok, blocked_edge=edge_ok)
         if p is not None:
@@ -356,8 +362,21 @@ def r26_6(ctx):
     rets = [n for n in body_walk(isa.node) if isinstance(n, ast.Return)]
     pos = [r for r in rets if not (isinstance(r.value, ast.Constant) and r.value.value is False)]
     rr.inst(site(isa), positive_returns=[norm(r) for r in pos])
+    from ..dataflow import Defs as _Defs
+
+    idefs = _Defs(isa.node)
     for r in pos:
-        ids = idents_in(r.value)
+        ids = set(idents_in(r.value))
+        work = [n.id for n in ast.walk(r.value) if isinstance(n, ast.Name)]
+        seen_l = set()
+        while work:  # look through locals (``m = list_chunkmanagers().get("dask"); return isinstance(m, ...)``)
+            nm = work.pop()
+            if nm in seen_l:
+                continue
+            seen_l.add(nm)
+            for v in idefs.defs.get(nm, []):
+                ids |= set(idents_in(v))
+                work.extend(n.id for n in ast.walk(v) if isinstance(n, ast.Name))
         if not ({"isinstance", "DaskArrayExprManager", "list_chunkmanagers", "dask"} <= ids):
             ctx.finding(rr, site(isa, r), "isactive() may report active without testing that the 'dask' slot holds a DaskArrayExprManager", func=isa, node=r)
     if not pos:
